@@ -8,22 +8,22 @@ import Rscp.Gen.Leaves
 namespace Rscp.Tie.JsonOut
 
 /-- source of `e3dc_NewJSONMergedMessages` is unchanged -/
-theorem shape_e3dc_NewJSONMergedMessages : Rscp.Gen.Shape.e3dc_NewJSONMergedMessages = "87e1308d87e720be8c6415d536c36d23" := rfl
+theorem shape_e3dc_NewJSONMergedMessages : Rscp.Gen.Shape.e3dc_NewJSONMergedMessages = "f00dd54778a2ddd5ad16cd1fa853743c" := rfl
 /-- source of `e3dc_NewJSONSimpleMessage` is unchanged -/
-theorem shape_e3dc_NewJSONSimpleMessage : Rscp.Gen.Shape.e3dc_NewJSONSimpleMessage = "dca7820bdedb72153396814720c78f2a" := rfl
+theorem shape_e3dc_NewJSONSimpleMessage : Rscp.Gen.Shape.e3dc_NewJSONSimpleMessage = "991b477ae1afa8a2575bcf05a3f8d3c0" := rfl
 /-- source of `e3dc_NewJSONSimpleMessages` is unchanged -/
-theorem shape_e3dc_NewJSONSimpleMessages : Rscp.Gen.Shape.e3dc_NewJSONSimpleMessages = "5d7667d82349b5935725e52b8b0195ff" := rfl
+theorem shape_e3dc_NewJSONSimpleMessages : Rscp.Gen.Shape.e3dc_NewJSONSimpleMessages = "5129c97ad2a5bc6fa0c358039a9277eb" := rfl
 /-- source of `e3dc_JSONMessage_MarshalJSON` is unchanged -/
-theorem shape_e3dc_JSONMessage_MarshalJSON : Rscp.Gen.Shape.e3dc_JSONMessage_MarshalJSON = "30abebd09a68f0f261fcd524e5008fda" := rfl
+theorem shape_e3dc_JSONMessage_MarshalJSON : Rscp.Gen.Shape.e3dc_JSONMessage_MarshalJSON = "6335d95d4d1de5885fd32679b32d7be4" := rfl
 /-- source of `e3dc_run` is unchanged -/
-theorem shape_e3dc_run : Rscp.Gen.Shape.e3dc_run = "a56d86821e515d633d17f85d10f33332" := rfl
+theorem shape_e3dc_run : Rscp.Gen.Shape.e3dc_run = "3744fb6a0dae46009e2819eabdb9c53f" := rfl
 /-- source of `rscp_Tag_MarshalJSON` is unchanged -/
-theorem shape_rscp_Tag_MarshalJSON : Rscp.Gen.Shape.rscp_Tag_MarshalJSON = "93c6c583baf3a627191b6aad23870223" := rfl
+theorem shape_rscp_Tag_MarshalJSON : Rscp.Gen.Shape.rscp_Tag_MarshalJSON = "0489f29658b023dafa3829e6877f0a11" := rfl
 /-- source of `rscp_RscpError_MarshalJSON` is unchanged -/
-theorem shape_rscp_RscpError_MarshalJSON : Rscp.Gen.Shape.rscp_RscpError_MarshalJSON = "de7b0864d856bc2f4af30b146ab5d62a" := rfl
+theorem shape_rscp_RscpError_MarshalJSON : Rscp.Gen.Shape.rscp_RscpError_MarshalJSON = "1177294f160c25901f9e502d185ad353" := rfl
 /-- source of `rscp_RscpError_String` is unchanged -/
-theorem shape_rscp_RscpError_String : Rscp.Gen.Shape.rscp_RscpError_String = "feed00c034fbcc364f80bdfd93e13067" := rfl
+theorem shape_rscp_RscpError_String : Rscp.Gen.Shape.rscp_RscpError_String = "b33109c0258cb04f394f4047b5d27a85" := rfl
 /-- source of `rscp_DataType_MarshalJSON` is unchanged -/
-theorem shape_rscp_DataType_MarshalJSON : Rscp.Gen.Shape.rscp_DataType_MarshalJSON = "caf4c4d08414da1212caec7aeaf621d6" := rfl
+theorem shape_rscp_DataType_MarshalJSON : Rscp.Gen.Shape.rscp_DataType_MarshalJSON = "90162ebd7939b429956331026ec913df" := rfl
 
 end Rscp.Tie.JsonOut
